@@ -285,3 +285,82 @@ Definition is_request (o : cop) : bool :=
 (* the call either accepts (returns true) or leaves the busy report in the progress file *)
 Definition request_answered (T : tables) (m : mstate) (o : cop) : bool :=
   let '(m', r) := mstep T m o in N.eqb r 1 || pcode_eqb (fst (progress (ms m'))) CBusy.
+
+(* ---------------------------------------------------------------------------------------------
+   Atomic-step correspondence.  The harness runs the real goroutines (2-3 signal threads, the holder,
+   the release goroutine) through yield points inserted before every statement of
+   tryQueueReloadRequest / clearReloadPending / releaseReloadPendingAfterRetirement /
+   Begin/EndReloadProxyFailureSuppression under a deterministic scheduler.  A micro-step is what one
+   goroutine does between two yields: at most one atomic operation.  The orchestrator translates each
+   micro-step into the model actions it amounts to (none for a step without atomic operation). *)
+Record mobs := {
+  mo_pending : bool; mo_active : bool; mo_reloading : bool; mo_supp : nat; mo_qlen : nat;
+  mo_code : pcode; mo_msg : msg
+}.
+Definition mobs_of (s : state) : mobs :=
+  Build_mobs (pending s) (active s) (reloading s) (supp s) (length (queue s)) (fst (progress s)) (snd (progress s)).
+Definition mobs_eqb (a b : mobs) : bool :=
+  Bool.eqb (mo_pending a) (mo_pending b) && Bool.eqb (mo_active a) (mo_active b)
+  && Bool.eqb (mo_reloading a) (mo_reloading b) && Nat.eqb (mo_supp a) (mo_supp b)
+  && Nat.eqb (mo_qlen a) (mo_qlen b) && pcode_eqb (mo_code a) (mo_code b) && msg_eqb (mo_msg a) (mo_msg b).
+(* what a refused request must leave alone *)
+Definition core_eqb (a b : mobs) : bool :=
+  Bool.eqb (mo_pending a) (mo_pending b) && Bool.eqb (mo_active a) (mo_active b)
+  && Bool.eqb (mo_reloading a) (mo_reloading b) && Nat.eqb (mo_supp a) (mo_supp b)
+  && Nat.eqb (mo_qlen a) (mo_qlen b).
+
+Record micro_step := { mi_thread : nat; mi_actions : list action; mi_obs : mobs }.
+Record micro_case := {
+  mc_tables : tables;              (* the holder's script as the only worker path *)
+  mc_setup : list action;          (* ASignal for every signal thread *)
+  mc_steps : list micro_step;
+  mc_results : list (nat * N);     (* signal thread, 1 accepted / 0 refused / 2 not finished *)
+  mc_quiescent : bool              (* every goroutine has finished *)
+}.
+
+(* impl = model after every micro-step: error code 6 *)
+Fixpoint micro_model (T : tables) (s : state) (steps : list micro_step) (n : N) : list (N * N) :=
+  match steps with
+  | [] => []
+  | st :: rest =>
+      let s' := fold_left (step T) (mi_actions st) s in
+      (if mobs_eqb (mobs_of s') (mi_obs st) then [] else [(n, 6%N)]) ++ micro_model T s' rest (n + 1)%N
+  end.
+
+(* the lock of the spec read off the implementation's own observations: error code 7 *)
+Fixpoint transitions (t : option nat) (prev : mobs) (steps : list micro_step) : nat * nat * bool :=
+  (* (acquisitions false->true, releases true->false, some step changed the core) by thread t (None: anybody) *)
+  match steps with
+  | [] => (0, 0, false)
+  | st :: rest =>
+      let '(a, r, c) := transitions t (mi_obs st) rest in
+      let mine := match t with Some x => Nat.eqb x (mi_thread st) | None => true end in
+      if mine then
+        ((if negb (mo_pending prev) && mo_pending (mi_obs st) then S a else a),
+         (if mo_pending prev && negb (mo_pending (mi_obs st)) then S r else r),
+         c || negb (core_eqb prev (mi_obs st)))
+      else (a, r, c)
+  end.
+
+Definition micro_spec (c : micro_case) : list (N * N) :=
+  let o0 := mobs_of init_state in
+  let per_thread :=
+    flat_map (fun tr : nat * N =>
+      let '(t, res) := tr in
+      let '(a, r, ch) := transitions (Some t) o0 (mc_steps c) in
+      if N.eqb res 1 then (if Nat.eqb a 1 && Nat.eqb r 0 then [] else [(N.of_nat t, 7%N)])   (* accepted: it took the lock itself, once *)
+      else if N.eqb res 0 then (if ch then [(N.of_nat t, 7%N)] else [])                       (* refused: it changed nothing *)
+      else []) (mc_results c) in
+  let '(a, r, _) := transitions None o0 (mc_steps c) in
+  let final := last (map mi_obs (mc_steps c)) o0 in
+  let held := if mo_pending final then 1 else 0 in
+  let accepted := length (filter (fun tr : nat * N => N.eqb (snd tr) 1) (mc_results c)) in
+  per_thread ++
+  (if mc_quiescent c &&
+      negb (Nat.eqb (mo_supp final) held && Nat.eqb (a - r) held && Nat.eqb (accepted - r) held
+            && Nat.leb (mo_qlen final) held)
+   then [(N.of_nat (length (mc_steps c)), 7%N)] else []).
+
+Definition check_micro (c : micro_case) : list (N * N) :=
+  micro_model (mc_tables c) (fold_left (step (mc_tables c)) (mc_setup c) init_state) (mc_steps c) 0%N
+  ++ micro_spec c.
